@@ -77,9 +77,19 @@ class Report:
         known = findings.known_keys(self.prop)
         os.makedirs(os.path.join(EVID, "replay"), exist_ok=True)
         new, seen_known = [], {}
-        for key, what, replay in self.violations:
+        def known_as(key):
+            # a known entry whose key ends with "*" covers the keys it is a prefix of (one failure class whose key
+            # carries a varying suffix, e.g. .../after-<failure kind>)
             if key in known:
-                seen_known.setdefault(key, what)
+                return key
+            for k in known:
+                if k.endswith("*") and key.startswith(k[:-1]):
+                    return k
+            return None
+        for key, what, replay in self.violations:
+            kk = known_as(key)
+            if kk is not None:
+                seen_known.setdefault(kk, what)
             else:
                 new.append((key, what, replay))
         for key, what in seen_known.items():
